@@ -160,8 +160,9 @@ impl_domain!(B3 = 3); impl_domain!(B4 = 4); impl_domain!(B5 = 5);
 impl_domain!(C0 = 0); impl_domain!(C1 = 1); impl_domain!(C2 = 2);
 impl_domain!(C3 = 3); impl_domain!(C4 = 4); impl_domain!(C5 = 5);
 // joint domains for flattened products used as 1-D domains
-pub struct A6; pub struct A8; pub struct A9;
-impl_domain!(A6 = 6); impl_domain!(A8 = 8); impl_domain!(A9 = 9);
+pub struct A6; pub struct A7; pub struct A8; pub struct A9;
+impl_domain!(A6 = 6); impl_domain!(A7 = 7); impl_domain!(A8 = 8); impl_domain!(A9 = 9);
+new_type_domain!(pub NA6 = 6); new_type_domain!(pub NA7 = 7);
 
 // newtype-indexed domains
 new_type_domain!(pub NA0 = 0); new_type_domain!(pub NA1 = 1); new_type_domain!(pub NA2 = 2);
